@@ -345,7 +345,11 @@ def run(chk):
         try:
             full = full_parse(P, text, bbs)
         except ParseError as e:
-            chk.note(f"{name}: full parser rejects the netlist ({e}); no agreement obligation")
+            # every netlist of these families is inside the documented subset of both parsers
+            chk.ob("C14.A.agreement", name, False, file="parsing/verilog.py", func="parse_verilog_netlist", fact={"problem": "the full parser rejects a conforming netlist", "error": str(e)[:160]},
+                   expect="both parsers return the same circuit")
+            for b_, d_ in zip(bbs, defs_before):
+                b_.input_set, b_.output_set = set(d_[0]), set(d_[1])
             continue
         touched = [b_.name for b_, d_ in zip(bbs, defs_before) if (b_.input_set, b_.output_set) != d_]
         for b_, d_ in zip(bbs, defs_before):
@@ -376,6 +380,25 @@ def run(chk):
         prob = None
     chk.ob("C14.A.no-state-between-parses", "rejected netlist, then a conforming one", prob is None and r_bad[0] == "raise", file=FILE, func="fast_parse_verilog_netlist", line=fi.node.lineno,
            fact=prob or {"first_parse": str(r_bad)[:80]}, expect="the second parse equals the full parser's result")
+    # two netlists in one process whose blackbox lists use the same module name for different definitions (a library flop
+    # `ff(CK, D -> Q)` and the generic `ff(clk, d -> q)`): each parse goes by the list it was given
+    ffA = RefBlackBox("ff", ["CK", "D"], ["Q"])
+    ffB = RefBlackBox("ff", ["clk", "d"], ["q"])
+    tA = "module s (ck, a, y);\n  input ck, a;\n  output y;\n  wire q0;\n  ff r0 (.CK(ck), .D(a), .Q(q0));\n  buf b0 (y, q0);\nendmodule\n"
+    tB = "module s (ck, a, y);\n  input ck, a;\n  output y;\n  wire q0;\n  ff r0 (.clk(ck), .d(a), .q(q0));\n  not b0 (y, q0);\nendmodule\n"
+    prob = None
+    for text_, bb_ in ((tA, ffA), (tB, ffB), (tA, ffA)):
+        try:
+            full = full_parse(P, text_, [bb_])
+        except ParseError as e:
+            prob = {"problem": "the full parser rejects the netlist after an earlier parse with another definition of the same module name", "error": str(e)[:160]}
+            break
+        r_ = P.call(FILE, "fast_parse_verilog_netlist", text_, [bb_])
+        prob = {"problem": "fast parser raises", "result": str(r_)[:120]} if r_[0] != "return" else compare(full, r_[1])
+        if prob:
+            break
+    chk.ob("C14.A.no-state-between-parses", "same module name, different definitions, alternating", prob is None, file="parsing/verilog.py", func="parse_verilog_netlist", fact=prob or {"parses": 3},
+           expect="each parse uses the blackbox definitions it was given")
     # through the public entry point
     name, text, bbs, mname = texts[0]
     r = P.call("io.py", "verilog_to_circuit", text, mname, False, bbs, False, False, True)
